@@ -217,7 +217,7 @@ fn simpler_ops(op: &Op) -> Vec<Op> {
         Op::IntoIter { t, take, end } => {
             push(Op::IntoIter { t, take: 0, end: crate::plan::End::Drop });
             push(Op::IntoIter { t, take: take / 2, end });
-            push(Op::DropNew { t, set: false });
+            push(Op::DropNew { t, set: false, dflt: false });
         }
         Op::IntoKeys { t, take, end } => {
             push(Op::IntoKeys { t, take: 0, end: crate::plan::End::Drop });
